@@ -9,7 +9,7 @@ mkdir -p .work/bin evidence replays
 for s in checks/C*.json; do
   id=$(basename "$s" .json)
   if grep -q '"facts"' "$s"; then
-    .work/bin/gofacts -repo "${VERIF_REPO:-/repo}" -spec "$s" -out "lean/GateModel/Gen/$id.lean"
+    .work/bin/gofacts -repo "${VERIF_REPO:-/repo}" -spec "$s" -out "lean/GateModel/Gen/$id.lean" || echo "WARNING: gofacts failed for $id"
   fi
 done
 # Lean: all property modules and drivers
@@ -24,11 +24,11 @@ for p in sorted(glob.glob('checks/C*.json')):
 print(' '.join(t))
 PY
 )
-(cd lean && lake build $mods)
+(cd lean && lake build $mods) || echo "WARNING: some Lean targets failed to build (the affected checks will report it)"
 # Go harnesses (warm the build cache)
 cp /repo/go.sum harness/go.sum 2>/dev/null || true
 for s in checks/C*.json; do
   h=$(python3 -c "import json,sys; print(json.load(open('$s')).get('harness',''))")
-  [ -n "$h" ] && (cd harness && go1.26.8 build -tags verif -o ../.work/bin/$h ./$h)
+  if [ -n "$h" ]; then (cd harness && go1.26.8 build -tags verif -o ../.work/bin/$h ./$h) || echo "WARNING: harness $h failed to build"; fi
 done
 echo setup done
